@@ -774,11 +774,31 @@ def simplify(e):
                     any(z.value is None or z.value is True or z.value is False for z in (a, b)):
                 r = a.value is b.value        # identity with a singleton
                 return ast.Constant(value=r if isinstance(x.ops[0], ast.Is) else not r)
+            if const(a) and isinstance(b, ast.Dict) and all(isinstance(z, ast.Constant) for z in b.keys) \
+                    and isinstance(x.ops[0], (ast.In, ast.NotIn)):
+                r = a.value in [z.value for z in b.keys]
+                return ast.Constant(value=r if isinstance(x.ops[0], ast.In) else not r)
             if const(a) and isinstance(b, (ast.Tuple, ast.List, ast.Set)) and all(const(z) for z in b.elts) \
                     and isinstance(x.ops[0], (ast.In, ast.NotIn)):
                 r = a.value in [z.value for z in b.elts]
                 return ast.Constant(value=r if isinstance(x.ops[0], ast.In) else not r)
             x.left, x.comparators = a, [b]
+            return x
+        if isinstance(x, ast.Subscript) and isinstance(x.value, ast.Dict):
+            k = fold(x.slice)
+            if const(k):
+                for kk, vv in zip(x.value.keys, x.value.values):
+                    if isinstance(kk, ast.Constant) and kk.value == k.value:
+                        return fold(vv)
+            return x
+        if isinstance(x, ast.Call) and isinstance(x.func, (ast.Subscript, ast.Attribute, ast.Name)):
+            f_ = fold(x.func) if isinstance(x.func, ast.Subscript) else x.func
+            ops = {"lt": ast.Lt, "le": ast.LtE, "gt": ast.Gt, "ge": ast.GtE, "eq": ast.Eq, "ne": ast.NotEq}
+            if isinstance(f_, ast.Attribute) and isinstance(f_.value, ast.Name) and f_.value.id == "operator" and f_.attr in ops \
+                    and len(x.args) == 2 and not x.keywords:
+                return fold(ast.Compare(left=x.args[0], ops=[ops[f_.attr]()], comparators=[x.args[1]]))
+            if f_ is not x.func:
+                x.func = f_
             return x
         if isinstance(x, ast.IfExp):
             t = fold(x.test)
@@ -801,7 +821,27 @@ def peval(view, env, max_paths=400, effects=False):
     (`self.cutoff = True`) executed on that path.  The result does not depend on how the function spells its dispatch
     (if/elif chain, early returns, guard clauses, flags), only on what it computes."""
     cfg = view.cfg
-    cenv = {k: ast.Constant(value=v) for k, v in env.items()}
+    cenv = {k: (v if isinstance(v, ast.AST) else ast.Constant(value=v)) for k, v in env.items()}
+    # class-level literal tables of the module (`Orderings = {'<': operator.lt, ..}`) are known values too
+    try:
+        mtree = view.fn._module.tree
+        owner = None
+        for c in mtree.body:
+            if isinstance(c, ast.ClassDef):
+                if any(f is view.fn for f in c.body):
+                    owner = c.name
+                for st in c.body:
+                    if isinstance(st, ast.Assign) and len(st.targets) == 1 and isinstance(st.targets[0], ast.Name) and \
+                            isinstance(st.value, (ast.Dict, ast.Tuple, ast.List)) and \
+                            sum(1 for z in c.body if isinstance(z, ast.Assign) and any(dotted(t) == st.targets[0].id for t in z.targets)) == 1:
+                        cenv.setdefault("%s.%s" % (c.name, st.targets[0].id), st.value)
+        if owner:
+            for k in list(cenv):
+                if k.startswith(owner + "."):
+                    cenv.setdefault("self." + k.split(".", 1)[1], cenv[k])
+                    cenv.setdefault("cls." + k.split(".", 1)[1], cenv[k])
+    except Exception:
+        pass
     out, seen_out = [], set()
     stack = [(cfg.entry.id, dict(cenv), False, {}, ())]
     paths = 0
@@ -1219,3 +1259,22 @@ def formula_implies_f(f, g):
         if _eval(f, env) and not _eval(g, env):
             return False
     return True
+
+
+def nearest_dominator(view, node):
+    """the last node (other than `node`) that every path from the function entry to `node` passes through"""
+    cfg = view.cfg
+    cands = [d for d in cfg.nodes if d.id != node.id and node.id in cfg.reachable(d.id) and view.dominated([node], [d])]
+    best = None
+    for d in cands:
+        if all(o.id == d.id or view.dominated([d], [o]) for o in cands):
+            best = d
+    return best
+
+
+def local_condition(view, node, by_value=True):
+    """path condition of `node` measured from its nearest dominator: the part of the guard that is decided after the last point
+    every path has in common (keeps the number of atoms small in long functions)"""
+    d = nearest_dominator(view, node)
+    start = [d.id] if d is not None else [view.cfg.entry.id]
+    return path_condition(view, node, start=start, by_value=by_value)
